@@ -346,6 +346,19 @@ pub fn c09_programs() -> Vec<Arc<Prog>> {
         p("flush||flush||w", vec![Put(0, 1, 8)], vec![vec![Flush], vec![Flush], vec![Put(1, 2, 8)]]),
         p("compact||compact", vec![Put(0, 1, 8), Flush, Put(1, 2, 8)], vec![vec![Compact(None, None)], vec![Compact(Some(0), Some(1))]]),
         p("reader||w+flush", vec![Put(0, 1, 8)], vec![vec![Get(0), IterScan], vec![Put(0, 2, 8), Flush]]),
+        // an automatic (size-triggered) level-0 compaction racing with a manual compact_range:
+        // the setup leaves one file in L2, one in L1, three in L0 and a full memtable; the put
+        // rotates it, the flush makes the fourth L0 file and triggers the automatic compaction
+        p(
+            "auto-compaction||compact",
+            vec![Put(0, 1, 8), Flush, Put(0, 2, 8), Flush, Put(0, 3, 8), Flush, Put(0, 4, 8), Flush, Put(0, 5, 8), Flush, Put(0, 6, 8)],
+            vec![vec![Put(1, 7, 8)], vec![Compact(None, None)]],
+        ),
+        p(
+            "auto-compaction||compact||get",
+            vec![Put(0, 1, 8), Flush, Put(0, 2, 8), Flush, Put(0, 3, 8), Flush, Put(0, 4, 8), Flush, Put(0, 5, 8), Flush, Put(0, 6, 8)],
+            vec![vec![Put(1, 7, 8)], vec![Compact(Some(0), Some(1))], vec![Get(0)]],
+        ),
     ]
 }
 
